@@ -148,5 +148,4 @@ theorem readListing_render (tmps : List (List Char)) (ls : List Line)
     intro t h; simpa using (ht t h).2
   rw [htmp, readAll_render ls hl]
 
-#print axioms readListing_render
 end P.Listing
